@@ -437,6 +437,39 @@ func Zero(s *schema.Schema, t schema.Type) *V {
 	panic("zero of " + t.String())
 }
 
+// Valid is the smallest valid value of the type: like Zero, but an enum carries its first symbol and a
+// union its first member (Zero holds the invalid "unknown" constant / unset union there).
+func Valid(s *schema.Schema, t schema.Type) *V {
+	switch {
+	case t.Prim != "":
+		return zeroPrim(t.Prim)
+	case t.Array != nil:
+		return Array()
+	case t.Map != nil:
+		return Map()
+	}
+	n := s.Lookup(*t.Ref)
+	switch n.Kind {
+	case "record", "complexkey":
+		r := Record()
+		for _, f := range s.AllFields(n) {
+			if f.Required() {
+				r.Flds[f.Name] = Valid(s, f.Type)
+			}
+		}
+		return r
+	case "enum":
+		return Enum(n.Symbols[0])
+	case "union":
+		if len(n.Members) == 0 {
+			return Union("", nil) // null-only union
+		}
+		m := n.Members[0]
+		return Union(m.Alias, Valid(s, m.Type))
+	}
+	return Zero(s, t)
+}
+
 func zeroPrim(p string) *V {
 	switch p {
 	case "int32":
